@@ -86,6 +86,32 @@ func init() {
 
 func kindOf(n ast.Node) string { return reflect.TypeOf(n).Elem().Name() }
 
+// kinds outside the 41 at which particular pattern nodes can start a match (pinned facts, like the universe):
+// a node of such a kind is in scope when an alternative of the pattern headed by that node matches it on its own
+var extraKinds = map[string]map[string]bool{
+	"Symbol": {"IndexListExpr": true},
+	"List":   {"BlockStmt": true, "FieldList": true},
+}
+
+// leaves: the alternatives of a pattern's root, through Or and through bindings with a node
+func leaves(n pattern.Node) []pattern.Node {
+	switch n := n.(type) {
+	case pattern.Or:
+		var out []pattern.Node
+		for _, c := range n.Nodes {
+			out = append(out, leaves(c)...)
+		}
+		return out
+	case pattern.Binding:
+		if n.Node != nil {
+			if _, isNil := n.Node.(pattern.Nil); !isNil {
+				return leaves(n.Node)
+			}
+		}
+	}
+	return []pattern.Node{n}
+}
+
 func symOf(n pattern.Node, acc *[][3]string) string {
 	switch n := n.(type) {
 	case nil:
@@ -171,7 +197,7 @@ const lib = "example.com/m/lib"
 // generated patterns: root Or / Not / Binding, Symbol under Or / Binding, function, generic, method, type,
 // variable, constant and builtin symbols, entry kinds of every struct node
 func generated(r *hx.Rand) []string {
-	syms := []string{lib + ".F", lib + ".G", "(" + lib + ".T).M", "(*" + lib + ".T).P", lib + ".T", lib + ".A", lib + ".V", lib + ".C",
+	syms := []string{lib + ".F", lib + ".G", lib + ".Pair", "(" + lib + ".T).M", "(*" + lib + ".T).P", lib + ".T", lib + ".A", lib + ".V", lib + ".C",
 		lib + ".Fn", "(" + lib + ".E).M", "(" + lib + ".I).Q", "example.com/m/lib2.B", "example.com/m/lib2.H", "len", "append", "fmt.Sprintf", "(*bytes.Buffer).String",
 		"strings.ToUpper", lib + ".Missing", "example.com/m/nowhere.F"}
 	var out []string
@@ -184,6 +210,17 @@ func generated(r *hx.Rand) []string {
 			q,
 			fmt.Sprintf("(Or %s)", q),
 			fmt.Sprintf("(Binding \"s\" %s)", q),
+			// a start-anywhere alternative next to a Symbol: the entry kinds are allTypes PLUS what only Symbol contributes
+			fmt.Sprintf("(Or _ %s)", q),
+			fmt.Sprintf("(Or %s x)", q),
+			fmt.Sprintf("(Or (TrulyConstantExpression _) %s)", q),
+			fmt.Sprintf("(Binding \"b\" (Or _ %s))", q),
+			// a root call whose callee mixes a Symbol with other alternatives: no root call symbols
+			fmt.Sprintf("(CallExpr (Or %s (Ident \"f\")) _)", q),
+			fmt.Sprintf("(CallExpr (Or (Builtin \"len\") %s) _)", q),
+			fmt.Sprintf("(CallExpr (Or %s (SelectorExpr _ (Ident \"M\"))) _)", q),
+			fmt.Sprintf("(CallExpr (Or %s fn@(Symbol %q)) _)", q, syms[r.Intn(len(syms))]),
+			fmt.Sprintf("(CallExpr (Or (Ident \"m\") (Ident \"g\")) _)"),
 			fmt.Sprintf("(TypeAssertExpr _ %s)", q),
 			fmt.Sprintf("(Or (CallExpr %s _) (GoStmt (CallExpr %s _)))", q, q),
 			fmt.Sprintf("(CallExpr (Or %s (Symbol %q)) _)", q, syms[r.Intn(len(syms))]),
@@ -236,6 +273,7 @@ func writeModule(dir string) {
 
 func F(x int) int { return x }
 func G[T any](x T) T { return x }
+func Pair[A, B any](a A, b B) A { return a }
 
 type T struct{ N int }
 
@@ -287,6 +325,11 @@ func calls(i lib.I, x int) {
 	(lib.G[int])(3)
 	g := lib.G[string]
 	g("s")
+	lib.Pair[int, string](1, "a")
+	pf := lib.Pair[int, string]
+	pf(2, "b")
+	lib.Pair(3, "c")
+	(lib.Pair[int, string])(4, "d")
 	var t lib.T
 	t.M(1)
 	(t.M)(2)
@@ -614,8 +657,29 @@ func main() {
 				}
 				r.Filtered = len(filtered)
 				var dropped []ast.Node
+				inScope := func(n ast.Node) bool {
+					k := kindOf(n)
+					if universe[k] {
+						return true
+					}
+					for _, lf := range leaves(q.Root) {
+						if lf == nil || !extraKinds[reflect.TypeOf(lf).Name()][k] {
+							continue
+						}
+						alone := pattern.Pattern{Root: lf, Bindings: q.Bindings}
+						ok := false
+						func() {
+							defer func() { recover() }()
+							_, ok = code.Match(pass, alone, n)
+						}()
+						if ok {
+							return true
+						}
+					}
+					return false
+				}
 				for n := range brute {
-					if !universe[kindOf(n)] {
+					if !inScope(n) {
 						continue
 					}
 					r.Brute++
